@@ -78,7 +78,8 @@ class InputWorld:
                     s += " = " + lit_text(f["default"])
                 fl.append(s)
             sdl.append("input %s {\n%s\n}" % (name, "\n".join(fl)))
-        q = ["  s: String"]
+        sdl.append("directive @guard on ARGUMENT_DEFINITION")
+        q = ["  s: String", "  gd(a: Int @guard, b: Int = 5): String"]
         for i, ty in enumerate(self.types, 1):
             q.append("  e%d(a: %s): String" % (i, render.typeref(ty)))
             q.append("  d%d(a: %s = %s): String" % (i, render.typeref(ty), lit_text(self.goods[i - 1]["lit"])))
@@ -90,6 +91,20 @@ class InputWorld:
         @t.Resolver("Query.s", schema_name=self.sn)
         async def rs(parent, args, ctx, info):
             return "s"
+
+        @t.Directive("guard", schema_name=self.sn)
+        class Guard:
+            """an argument-definition directive whose hook raises a plain Python exception for the value 13"""
+            async def on_argument_execution(self, directive_args, next_directive, parent_node, argument_definition_node, argument_node, value, ctx):
+                v = await next_directive(parent_node, argument_definition_node, argument_node, value, ctx)
+                if v == 13 and not isinstance(v, bool):
+                    raise ValueError("guard refuses 13")
+                return v
+
+        @t.Resolver("Query.gd", schema_name=self.sn)
+        async def rgd(parent, args, ctx, info):
+            w.calls.append(("gd", info.path.as_list()[-1], snapshot_and_scribble(args)))
+            return "ok"
         for i in range(1, len(self.types) + 1):
             def mk(i):
                 @t.Resolver("Query.e%d" % i, schema_name=self.sn)
